@@ -46,7 +46,9 @@ class Z3Oracle(object):
         self.z3 = z3
         self.rec = rec
         self.solver = z3.Solver()
-        self.solver.set("timeout", 5000)
+        # solver-side deterministic resource limit (no wall-clock): exhausted => "unknown",
+        # a counted undecided case
+        self.solver.set("rlimit", 50000000)
 
     def pins(self, env, big=None):
         z3 = self.z3
